@@ -37,21 +37,24 @@ def showDecoded (n : NumpyMultiDataset) : String :=
   s!"a={showResCSM n.toColumnSeriesMap} b={showResCSM n.toColumnSeriesMapClient}"
 
 /-- is the bucket list one the property speaks about: at least one bucket, distinct normal keys,
-every series with wire-supported types and columns of one length, the same column names everywhere -/
-def c27Valid (bs : List (String × ColumnSeries)) : Bool :=
+every series with at least one column, wire-supported types and columns of one length, the same
+column names and types everywhere -/
+def c27ValidBut (sameTypes : Bool) (bs : List (String × ColumnSeries)) : Bool :=
   !bs.isEmpty &&
   (bs.map (fun p => normKey p.1)).eraseDups.length == bs.length &&
-  bs.all (fun p => normKey p.1 == p.1 &&
+  bs.all (fun p => normKey p.1 == p.1 && !p.2.cols.isEmpty &&
     p.2.cols.all (fun c => (typeStrOf c.typ).isSome && c.elems.length == p.2.len)) &&
   (match bs with
    | [] => true
-   | b :: rest => rest.all (fun p => p.2.cols.map (·.name) == b.2.cols.map (·.name)))
+   | b :: rest =>
+     rest.all (fun p => p.2.cols.map (·.name) == b.2.cols.map (·.name)) &&
+     (rest.all (fun p => p.2.cols.map (·.typ) == b.2.cols.map (·.typ)) == sameTypes))
 
-def c27Hyps (bs : List (String × ColumnSeries)) : List String :=
-  (if bs.any (fun p => p.2.len == 0) then ["nonempty_series"] else []) ++
-  (match bs with
-   | [] => []
-   | b :: rest => if rest.any (fun p => p.2.cols.map (·.typ) != b.2.cols.map (·.typ)) then ["same_types"] else [])
+def c27Valid (bs : List (String × ColumnSeries)) : Bool := c27ValidBut true bs
+
+/-- otherwise valid buckets whose column types differ: a dataset has one type string per column,
+so the only outcome compatible with the property (same types and values back) is a refusal -/
+def c27TypeClash (bs : List (String × ColumnSeries)) : Bool := c27ValidBut false bs
 
 /-- `nprt buckets`: compose like `executeQuery`, msgpack, decode with both decoders -/
 def nprtOp : Op := fun args =>
@@ -68,7 +71,8 @@ def nprtOp : Op := fun args =>
           s!"data={showBlobs n.nds.columnData} si={showMap n.startIndex} ln={showMap n.lengths} " ++ showDecoded n
       if c27Valid buckets then
         let e := showCSM (expectCSM buckets)
-        s!"M:{mline}\tS:~ a={e} b={e}\tH:{",".intercalate (c27Hyps buckets)}"
+        s!"M:{mline}\tS:~ a={e} b={e}"
+      else if c27TypeClash buckets then s!"M:{mline}\tS:err:append-types"
       else s!"M:{mline}"
   | _ => badArgs
 
